@@ -12,7 +12,8 @@ def run(tier, seed):
     r = spec.run_all(tier, seed)
     return {
         "failures": _mine(r["failures"]),
-        "mismatches": r["mismatches"],
+        # only the ties this property's theorems rest on: accessor API sources and their segment form
+        "mismatches": [m for m in r["mismatches"] if (m.replay or {}).get("kind") == "api"],
         "evaluations": r["lines"],
         "distinct_nontrivial": r["distinct"],
         "traces": r["lines"],
